@@ -730,7 +730,7 @@ var (
 	profC06 = Profile{Name: "C06", Update: 1, Publish: 5, Pull: 8, Ack: 1, Nack: 4, Delay: 2, Advance: 5, Sweep: 3, Churn: 1}
 	profC13 = Profile{Name: "C13", Publish: 6, Pull: 5, Ack: 5, Nack: 1, Advance: 3, Seek: 4, Snap: 5, Maint: 1}
 	profC14 = Profile{Name: "C14", Update: 1, SetDelay: 3, Publish: 5, Pull: 6, Ack: 2, Advance: 8, Seek: 1, Snap: 2, Maint: 4, BigAdvance: true}
-	profC15 = Profile{Name: "C15", Update: 1, SetDelay: 1, Publish: 5, Pull: 6, Ack: 4, Nack: 1, Advance: 5, Maint: 8, Sweep: 1, Churn: 2, Seek: 1, Snap: 1, BigAdvance: true}
+	profC15 = Profile{Name: "C15", Update: 1, SetDelay: 1, List: 2, Publish: 5, Pull: 6, Ack: 4, Nack: 1, Advance: 5, Maint: 8, Sweep: 1, Churn: 2, Seek: 1, Snap: 1, BigAdvance: true}
 )
 
 // streamOffered: on the streaming path too a message keeps being offered until it is acknowledged —
